@@ -86,7 +86,7 @@ impl<T> CacheAlignedVec<T> {
         }
 
         // Grow by at least 2x to amortize allocations
-        let new_cap = required_cap.max(self.capacity * 2).max(4);
+        let new_cap = required_cap.max(self.capacity.saturating_mul(2)).max(4);
         self.reallocate(new_cap)
     }
 
@@ -186,8 +186,12 @@ impl<T> CacheAlignedVec<T> {
         }
 
         // Ensure capacity is aligned to cache line boundaries for optimal access
-        let aligned_capacity =
-            align_to_cache_line(new_capacity * mem::size_of::<T>()) / mem::size_of::<T>();
+        let bytes = new_capacity
+            .checked_mul(mem::size_of::<T>())
+            .and_then(|b| b.checked_add(CACHE_LINE_SIZE - 1))
+            .ok_or_else(|| ZiporaError::invalid_data("Capacity overflow"))?
+            & !(CACHE_LINE_SIZE - 1);
+        let aligned_capacity = bytes / mem::size_of::<T>();
 
         let layout =
             Layout::from_size_align(aligned_capacity * mem::size_of::<T>(), Self::buffer_align())
